@@ -453,6 +453,8 @@ Definition apply_effect (e : effect) (s : st) : st * nat :=
 
 (* ---------------------------------------------------------- the engine *)
 
+Definition size_cap : nat := 1024.
+
 Section Engine.
 Variable ll : list lookup.
 Variable gd : option gdef.
@@ -547,14 +549,18 @@ Definition step (lk : lookup) (p : nat) (seq : list glyph) : list glyph * nat * 
     end
   else (seq, S p, true).
 
-(* scan: r glyphs remain (position = |seq| - r) *)
+(* scan: r glyphs remain (position = |seq| - r).  Sequences growing beyond
+   size_cap glyphs are outside the domain of the correspondence (the scan
+   stops there). *)
 Fixpoint scan (lk : lookup) (fuel r : nat) (seq : list glyph) (ok : bool) : list glyph * bool :=
   match fuel with
   | O => (seq, ok && (r =? 0))
   | S f =>
     if r =? 0 then (seq, ok) else
     match step lk (length seq - r) seq with
-    | (seq', next, ok') => scan lk f (length seq' - next) seq' (ok && ok')
+    | (seq', next, ok') =>
+      if size_cap <? length seq' then (seq', false)
+      else scan lk f (length seq' - next) seq' (ok && ok')
     end
   end.
 
